@@ -4,7 +4,7 @@ From BT Require Import C07.Fwd.
 Import ListNotations.
 
 (* the classes of every generated program: 1 = K (the class the annotation names), 2 = a subclass of K, 3 = an unrelated class,
-   4 = an unrelated class that is also called K, 5 = int, 6 = NoneType *)
+   4 = an unrelated class that is also called K, 5 = int, 6 = NoneType, 7 = another class some scope binds the name K to *)
 Definition kname : name := 7.
 Definition wgen : world :=
   {| cname := fun c => match c with 1 => kname | 4 => kname | _ => 100 + c end;
